@@ -76,6 +76,9 @@ func (w *World) resolveNotifOp(op Op) sdk.Msg {
 		if n := op.s("name"); n != "" {
 			list = append(list, n)
 		}
+		if n := op.s("name2"); n != "" {
+			list = append(list, n)
+		}
 		return &notiftypes.MsgBlockSenders{Creator: a.Bech, ToBlock: list}
 	}
 	return nil
@@ -153,6 +156,9 @@ func (g *genC18) Block(w *World, b int) Block {
 			}
 			if rng.Chance(1, 3) {
 				op = op.withS("name", rng.PickS(g.names[0], g.names[1], "nobody.jkl"))
+			}
+			if rng.Chance(1, 4) { // several names, one of them unresolvable
+				op = op.withS("name", rng.PickS(g.names[0], g.names[1], g.names[2])).withS("name2", rng.PickS("nobody.jkl", g.names[1], "ghost.ibc"))
 			}
 			add(op)
 		case 6: // names change hands, so resolution changes over time
